@@ -96,6 +96,38 @@ let mysql_ty (s : Stdlib.String.t) : Mysql.ty =
   | "mysql.NetworkType" -> NetworkType (gs kv "T")
   | c -> failwith ("mysql class " ^ c)
 
+let pg_ty (s : Stdlib.String.t) : Pg.ty =
+  let (cls, kv) = parse_struct s in
+  let open Pg in
+  match cls with
+  | "postgres.ArrayType" -> ArrayType (gs kv "T")
+  | "postgres.BitType" -> BitType (gs kv "T", gi kv "Len")
+  | "schema.BoolType" -> BoolType (gs kv "T")
+  | "schema.BinaryType" -> BinaryType (gs kv "T")
+  | "postgres.CurrencyType" -> CurrencyType (gs kv "T")
+  | "postgres.CompositeType" -> CompositeType (gs kv "T")
+  | "postgres.DomainType" -> DomainType (gs kv "T")
+  | "schema.EnumType" -> EnumType (gs kv "T")
+  | "schema.IntegerType" -> IntegerType (gs kv "T")
+  | "postgres.IntervalType" -> IntervalType (gs kv "T", gs kv "F", go kv "Precision")
+  | "schema.StringType" -> StringType (gs kv "T", gi kv "Size")
+  | "schema.TimeType" -> TimeType (gs kv "T", go kv "Precision")
+  | "schema.FloatType" -> FloatType (gs kv "T", gi kv "Precision")
+  | "schema.DecimalType" -> DecimalType (gs kv "T", gi kv "Precision", gi kv "Scale")
+  | "postgres.SerialType" -> SerialType (gs kv "T")
+  | "schema.JSONType" -> JSONType (gs kv "T")
+  | "schema.UUIDType" -> UUIDType (gs kv "T")
+  | "schema.SpatialType" -> SpatialType (gs kv "T")
+  | "postgres.NetworkType" -> NetworkType (gs kv "T")
+  | "postgres.RangeType" -> RangeType (gs kv "T")
+  | "postgres.OIDType" -> OIDType (gs kv "T")
+  | "postgres.TextSearchType" -> TextSearchType (gs kv "T")
+  | "postgres.UserDefinedType" -> UserDefinedType (gs kv "T")
+  | "postgres.XMLType" -> XMLType (gs kv "T")
+  | "postgres.PseudoType" -> PseudoType (gs kv "T")
+  | "schema.UnsupportedType" -> UnsupportedType (gs kv "T")
+  | c -> failwith ("postgres class " ^ c)
+
 let () =
   (try
     while true do
@@ -103,11 +135,14 @@ let () =
       if line <> "" then begin
         match Stdlib.String.split_on_char ' ' line with
         | id :: dialect :: ty :: _ ->
-          let (l1, l2) = match dialect with
-            | "sqlite" -> let t = sqlite_ty ty in (Sqlite.obs_fmt_sqlite t, Sqlite.obs_hcl_sqlite t)
-            | "mysql" -> let t = mysql_ty ty in (Mysql.obs_fmt_mysql t, Mysql.obs_hcl_mysql t)
-            | d -> failwith ("dialect " ^ d) in
-          Printf.printf "%s %s\n%s %s\n" id (string_of_bytes l1) id (string_of_bytes l2)
+          (match dialect with
+            | "sqlite" -> let t = sqlite_ty ty in
+              Printf.printf "%s %s\n%s %s\n" id (string_of_bytes (Sqlite.obs_fmt_sqlite t)) id (string_of_bytes (Sqlite.obs_hcl_sqlite t))
+            | "mysql" -> let t = mysql_ty ty in
+              Printf.printf "%s %s\n%s %s\n" id (string_of_bytes (Mysql.obs_fmt_mysql t)) id (string_of_bytes (Mysql.obs_hcl_mysql t))
+            | "postgres" -> (* FormatType only *)
+              Printf.printf "%s %s\n" id (string_of_bytes (Pg.obs_fmt_pg (pg_ty ty)))
+            | d -> failwith ("dialect " ^ d))
         | _ -> failwith ("bad case line: " ^ line)
       end
     done
